@@ -169,6 +169,37 @@ func c01wordCase(c *vf.Ctx, i int) {
 	c01hashOnNets(c, k, h, allNets)
 }
 
+// c01dualB58Case: cash addresses whose bare lower-case payload string is ALSO
+// a valid Base58Check string (precomputed by cmd/dualb58, about 7e9 candidates
+// per witness; re-verified here).  A decoder that tries the formats in another
+// order, or trusts the first one that verifies, takes them for something else.
+func c01dualB58Case(c *vf.Ctx, i int) {
+	if len(dualB58) == 0 {
+		c.Inconclusive("dual-format-table-empty")
+		return
+	}
+	e := dualB58[i%len(dualB58)]
+	h, err := hex.DecodeString(e.Hash)
+	if err != nil || len(h) != 20 {
+		c.Inconclusive("dual-format-table-entry-unusable")
+		return
+	}
+	s := ref.CashEncode(e.Prefix, e.Typ, h)
+	if _, _, ok := ref.B58CheckDecode(s); !ok {
+		c.Inconclusive("dual-format-table-entry-not-confirmed")
+		return
+	}
+	c.Inc("cash_addresses_that_are_also_valid_base58check")
+	k := c01kinds[e.Typ] // P2PKH, P2SH
+	var nets []netInfo
+	for _, n := range allNets {
+		if n.P.CashAddressPrefix == e.Prefix {
+			nets = append(nets, n)
+		}
+	}
+	c01hashOnNets(c, k, h, nets)
+}
+
 func c01hashOnNets(c *vf.Ctx, k c01kind, h []byte, nets []netInfo) {
 	{
 		for _, net := range nets {
@@ -703,6 +734,7 @@ func init() {
 			{Name: "pubkeys-dual-valid", Init: c01dualInit, N: func(t vf.Tier) int { return t.Sz(36, 72) }, Run: c01pubkeyDualCase},
 			{Name: "legacy-zero-digit-runs", N: func(t vf.Tier) int { return t.Sz(600, 12000) }, Run: c01zeroRunCase},
 			{Name: "first-use-concurrent", Workers: 1, Shards: 8, Init: c01firstUseInit, N: func(t vf.Tier) int { return 8 }, Run: c01firstUseCase},
+			{Name: "cashaddr-also-base58check", N: func(t vf.Tier) int { return t.Sz(8, 32) }, Run: c01dualB58Case},
 			{Name: "payload-spells-words", N: func(t vf.Tier) int { return t.Sz(6*14*6, 6*14*60) }, Run: c01wordCase},
 			{Name: "legacy-cashaddr-lookalikes", N: func(t vf.Tier) int { return t.Sz(480, 9600) }, Run: c01lookalikeCase},
 			{Name: "pubkeys-cashaddr-charset", N: func(t vf.Tier) int { return t.Sz(400, 6000) }, Run: c01pubkeyCharsetCase},
